@@ -63,7 +63,8 @@ Qed.
 Lemma all_valid_refs_range : forall ds, all_valid ds -> forall k t, In (Some k, t) (refs ds) -> 1 <= k <= NL_ARGMAX.
 Proof.
   intros ds H k t Hin. unfold refs in Hin. apply in_flat_map in Hin. destruct Hin as [d [Hd Hin]].
-  unfold all_valid in H. rewrite Forall_forall in H. eapply valid_refs_range; [apply H; exact Hd | exact Hin].
+  unfold all_valid in H. rewrite Forall_forall in H. specialize (H d Hd). unfold valid_impl in H.
+  apply andb_true_iff in H. destruct H as [H _]. eapply valid_refs_range; [exact H | exact Hin].
 Qed.
 
 (* ------------------------------------------------------------------ *)
@@ -177,10 +178,24 @@ Qed.
 (* ------------------------------------------------------------------ *)
 (* C11_accept_iff                                                       *)
 
-Lemma accept_valid : forall s fs, fmtc_parse 0 s = Ok fs -> printf_valid s.
+(* what the code accepts: printf_valid without the alternate form of %m (D15) *)
+Definition printf_valid_impl (s : list N) : Prop :=
+  exists ds, decomp s ds /\ Forall (fun d => valid_directive d = true) ds /\ Forall (fun d => no_alt_m d = true) ds /\
+             args_ok (refs ds).
+
+Lemma all_valid_split : forall ds, all_valid ds <->
+  Forall (fun d => valid_directive d = true) ds /\ Forall (fun d => no_alt_m d = true) ds.
+Proof.
+  intros ds. unfold all_valid. rewrite !Forall_forall. unfold valid_impl. split.
+  - intros H. split; intros d Hd; specialize (H d Hd); apply andb_true_iff in H; tauto.
+  - intros [H1 H2] d Hd. apply andb_true_iff. split; [apply H1 | apply H2]; exact Hd.
+Qed.
+
+Lemma accept_valid_impl : forall s fs, fmtc_parse 0 s = Ok fs -> printf_valid_impl s.
 Proof.
   intros s fs H. destruct (parse_ok_inv s fs H) as [G [V [c [A [HC HT]]]]].
-  exists (dirs (toks_of s)). split; [apply tokens_sound; [apply le_n | exact G]|]. split; [exact V|].
+  exists (dirs (toks_of s)). split; [apply tokens_sound; [apply le_n | exact G]|].
+  destruct (proj1 (all_valid_split _) V) as [V1 V2]. split; [exact V1|]. split; [exact V2|].
   pose proof (mrefs_all_rel (toks_of s) O) as F. fold (R_of s) in F. set (R := R_of s) in *. set (rs := refs (dirs (toks_of s))) in *.
   destruct (add_all_init_inv R c A) as [[Hn [Hl _]]|[Hne [Hs Hc]]].
   - left. split; [apply (rel_all_none R rs F); exact Hn|]. rewrite <- (Forall2_len _ _ _ _ _ F). exact Hl.
@@ -201,9 +216,9 @@ Proof.
       specialize (Hrange _ Ha1). cbn [fst] in Hrange. lia.
 Qed.
 
-Lemma valid_accept : forall s, printf_valid s -> exists fs, fmtc_parse 0 s = Ok fs.
+Lemma valid_accept : forall s, printf_valid_impl s -> exists fs, fmtc_parse 0 s = Ok fs.
 Proof.
-  intros s [ds [Hd [V Hargs]]].
+  intros s [ds [Hd [V1 [V2 Hargs]]]]. assert (all_valid ds) as V by (apply all_valid_split; split; assumption).
   destruct (tokens_complete (List.length s) s ds (le_n _) Hd) as [G D]. fold (toks_of s) in G, D.
   pose proof (mrefs_all_rel (toks_of s) O) as F. fold (R_of s) in F. rewrite D in F. set (R := R_of s) in *. set (rs := refs ds) in *.
   assert (all_valid (dirs (toks_of s))) as V' by (rewrite D; exact V).
@@ -238,8 +253,46 @@ Proof.
       rewrite N1, N2. f_equal. eapply Hone; eassumption.
 Qed.
 
-Theorem accept_iff : forall s, (exists fs, fmtc_parse 0 s = Ok fs) <-> printf_valid s.
-Proof. intros s. split; [intros [fs H]; eapply accept_valid; exact H | apply valid_accept]. Qed.
+Theorem accept_iff_impl : forall s, (exists fs, fmtc_parse 0 s = Ok fs) <-> printf_valid_impl s.
+Proof. intros s. split; [intros [fs H]; eapply accept_valid_impl; exact H | apply valid_accept]. Qed.
+
+(* everything the code accepts is valid *)
+Theorem accept_sound : forall s fs, fmtc_parse 0 s = Ok fs -> printf_valid s.
+Proof.
+  intros s fs H. destruct (accept_valid_impl s fs H) as [ds [Hd [V1 [_ Ha]]]]. exists ds. split; [exact Hd|]. split; assumption.
+Qed.
+
+(* the full property, and its refutation by "%#m" (valid since glibc 2.35, rejected with FlagError) *)
+Definition accept_iff_statement : Prop := forall s, (exists fs, fmtc_parse 0 s = Ok fs) <-> printf_valid s.
+
+Definition alt_m_witness : list N := [37; 35; 109]%N.
+
+Lemma alt_m_witness_valid : printf_valid alt_m_witness.
+Proof.
+  exists (dirs (toks_of alt_m_witness)). split.
+  { apply tokens_sound; [apply le_n | vm_compute; reflexivity]. }
+  split.
+  { let x := eval vm_compute in (dirs (toks_of alt_m_witness)) in change (dirs (toks_of alt_m_witness)) with x.
+    constructor; [vm_compute; reflexivity | constructor]. }
+  left. split; [intros r []|]. vm_compute. discriminate.
+Qed.
+
+Lemma alt_m_witness_rejected : fmtc_parse 0 alt_m_witness = Err (EFlagError alt_m_witness 35%N).
+Proof. vm_compute. reflexivity. Qed.
+
+Theorem accept_iff_refuted : ~ accept_iff_statement.
+Proof.
+  intros H. destruct (proj2 (H alt_m_witness) alt_m_witness_valid) as [fs Hfs]. rewrite alt_m_witness_rejected in Hfs. discriminate.
+Qed.
+
+(* ... and it holds for every string none of whose directives is an m conversion with the # flag *)
+Theorem accept_iff_outside_alt_m : forall s,
+  (forall ds, decomp s ds -> Forall (fun d => no_alt_m d = true) ds) ->
+  ((exists fs, fmtc_parse 0 s = Ok fs) <-> printf_valid s).
+Proof.
+  intros s Hg. split; [intros [fs H]; eapply accept_sound; exact H|].
+  intros [ds [Hd [V Ha]]]. apply valid_accept. exists ds. split; [exact Hd|]. split; [exact V|]. split; [apply Hg; exact Hd | exact Ha].
+Qed.
 
 (* ------------------------------------------------------------------ *)
 (* C11_signature                                                        *)
